@@ -192,6 +192,17 @@ def judge(cfg, world, log, ending, exit_returns):
             want_msg = b"couldn't exec"
         if want_msg is not None:
             nxt = log[i + 1][0] if i + 1 < len(log) else None
+            # the WHOLE line must reach descriptor 2: the reason (errno name / exception) is at its end
+            import errno as _errno
+            if nxt and nxt[0] == 'write' and nxt[1] == 2 and want_msg in nxt[2]:
+                full = None
+                if e[0] == 'chdir':
+                    full = ("supervisor: couldn't chdir to %s: %s\n" % (e[1], _errno.errorcode.get(r[1], r[1]))).encode()
+                elif e[0] in ('umask', 'execve') and r[0] == 'os':
+                    full = ("supervisor: couldn't exec %s: %s\n" % (cfg['argv'][0], _errno.errorcode.get(r[1], r[1]))).encode()
+                if (full is not None and nxt[2] != full) or not nxt[2].endswith(b'\n'):
+                    return ('%s failed with %r but only %d bytes of the %s-byte reason line reach descriptor 2: the reason '
+                            'at its end is cut off (...%r)' % (e[0], r, len(nxt[2]), len(full) if full else '?', nxt[2][-40:]))
             if not (nxt and nxt[0] == 'write' and nxt[1] == 2 and want_msg in nxt[2]):
                 return ('%s failed with %r but the reason is not written to descriptor 2 (next call: %r)'
                         % (e[0], r, nxt and nxt[:2]))
@@ -331,6 +342,14 @@ def grids(tier):
     for user, red, fcgi in itertools.product(('none', 'root'), B, B):
         cfg, w = mk(user, True, False, ENV_CHOICES[1], URL_CHOICES[0], red, 4, fcgi, True)
         out.append(('E_errnos', cfg, w, [('os', errno_.EINTR), ('os', errno_.EBUSY), ('os', errno_.EAGAIN)], False))
+    # L: diagnostics longer than PIPE_BUF (a 5000-character directory / command path): the whole line, with the
+    # reason at its end, must be written
+    import errno as errno2_
+    for fcgi in B:
+        cfg, w = mk('none', 'd' * 5000, False, None, URL_CHOICES[0], False, 3, fcgi, False)
+        cfg['file'] = '/' + 'c' * 5000
+        cfg['argv'] = ['/' + 'c' * 5000, '-x']
+        out.append(('L_long', cfg, w, [('os', errno2_.ENAMETOOLONG), ('other', 'exc')], False))
     # C: more kinds of exception (second errno, unknown errno, BaseException)
     for d, u, fcgi in itertools.product(B, B, B):
         cfg, w = mk('root', d, u, ENV_CHOICES[2], URL_CHOICES[4], not fcgi, 4, fcgi, True)
@@ -397,7 +416,8 @@ def _run(chk, wd, proved):
                     exec_term = ex
                 term = '(%s, %s, %s)' % (blit(er), lterm, ending_term(ending))
             except Unmodelled as e:
-                chk.violation({'kind': 'observable outside the model', 'detail': str(e), 'cfg': cfg, 'world': _w(world),
+                chk.violation({'kind': 'C18 fails on the implementation' if verdict else 'observable outside the model',
+                               'what': verdict, 'detail': str(e), 'cfg': cfg, 'world': _w(world),
                                'oracle': trail, 'log': _log(log), 'ending': ending, 'exit_returns': er},
                               nofail=verdict is None)
                 continue
